@@ -23,7 +23,7 @@ META = {
         "in-callback sends to the other instance are only issued from synchronous machines (for coroutine callbacks C03's cross-machine probe covers it)",
     ],
     "must_observe": ["events_executed", "other_instance_steps", "other_definitions", "pokes", "other_instance_events"],
-    "shard_timeout": {"quick": 300, "thorough": 3400},
+    "shard_timeout": {"quick": 900, "thorough": 3400},
 }
 
 PROFILE = {"n_states": (2, 5), "n_events": (1, 3), "extra_transitions": (1, 5), "p_multi_event": 0.2,
